@@ -27,13 +27,16 @@ if [ "$pkg" = "." ]; then echo "(root package: existing tests were run by the se
 tail -1 $dst/pkgtests_with.log
 git checkout -q -- .
 echo "demo_without_exit=$w0 demo_with_exit=$w1 build_exit=$b pkgtests_exit=$t"
-cd /repo
-git apply $dst/patch.diff || { echo "patch does not apply to /repo"; exit 2; }
+# The checks run against a private checkout of /repo's HEAD (with the contract files) to which
+# the change is applied: /repo itself is never touched (PVC_ALT_REPO, development only).
+alt=/tmp/seedalt/$id
+rm -rf $alt; git -C /repo worktree prune; mkdir -p /tmp/seedalt
+git -C /repo worktree add -q --detach $alt HEAD || { echo "cannot create $alt"; exit 2; }
+(cd $alt && git apply $dst/patch.diff) || { echo "patch does not apply to HEAD"; git -C /repo worktree remove --force $alt; exit 2; }
 for p in "$@"; do
-  echo "== ./check $p quick (with the change applied to /repo)"
-  (cd /verif && ulimit -v 14000000 && ./check $p quick > $dst/check_$p.log 2>&1; echo "exit=$?" >> $dst/check_$p.log)
+  echo "== ./check $p quick (with the change applied to a copy of /repo)"
+  (cd /verif && ulimit -v 14000000 && PVC_ALT_REPO=$alt ./check $p quick > $dst/check_$p.log 2>&1; echo "exit=$?" >> $dst/check_$p.log)
   grep -E "VIOLATION|failed obligation|exit=|KNOWN" $dst/check_$p.log | cut -c1-260 | head -8
 done
-git -C /repo apply -R $dst/patch.diff || echo 'WARNING: could not revert the patch in /repo'
-git -C /repo status --short | grep -v '^??' | head
+git -C /repo worktree remove --force $alt
 echo "{\"id\": \"$id\", \"demo_without_exit\": $w0, \"demo_with_exit\": $w1, \"build_exit\": $b, \"pkgtests_exit\": $t}" > $dst/result.json
